@@ -26,6 +26,7 @@ import (
 
 	"github.com/go-critic/go-critic/checkers"
 	"github.com/go-critic/go-critic/checkers/analyzer"
+	"github.com/go-critic/go-critic/linter"
 	"golang.org/x/tools/go/analysis"
 )
 
@@ -114,6 +115,17 @@ func serve(r *req) (out resp) {
 		log.SetOutput(os.Stderr)
 	}()
 	switch r.Op {
+	case "listed":
+		// what the registry lists in a process that links the analysis front-end (whose package initialisation
+		// already took a snapshot) once the embedded rules have been registered
+		if err := checkers.InitEmbeddedRules(); err != nil && !strings.Contains(err.Error(), "already registered") {
+			out.ParseErr = err.Error()
+			return
+		}
+		for _, info := range linter.GetCheckersInfo() {
+			out.Registered = append(out.Registered, info.Name)
+		}
+		return
 	case "registered":
 		out.Registered = analyzer.VerifRegistered()
 		out.Registry = analyzer.VerifRegistry()
